@@ -134,6 +134,9 @@ func main() {
 			case "funcq": // wp k01dec (ext_k01dec.go): funcm with the object types of the QR decoder
 				text, err = k01decGenFunc(p, e)
 				monadic[e.module] = true
+			case "regionq": // wp k01dec2 (ext_k01dec2.go): region with the abstract matrix operations threaded through
+				text, err = k01dec2GenRegion(p, e)
+				monadic[e.module] = true
 			default:
 				err = fmt.Errorf("unknown kind %s", e.kind)
 			}
